@@ -117,6 +117,78 @@ def _projs(proj):
     return "".join(out)
 
 
+def _unref(d):
+    while isinstance(d, tuple) and len(d) == 2 and d[0] == "ref":
+        d = d[1]
+    return d
+
+
+_ORD = {"lt": "Lt", "le": "Le", "gt": "Gt", "ge": "Ge"}
+_NEG_CALL = {"::is_none": "::is_some", "::is_err": "::is_ok"}
+
+
+def canon_bool(d, val):
+    """Canonical form of a boolean guard and the value it takes on this edge.  The same test written as `a != b`,
+    `!(a == b)`, `b > a`, `!(a <= b)`, `a.ne(&b)`, `x.is_none()` reaches the consumer as one shape:
+      negations are folded into the value;  Ne -> Eq (value flipped);  Gt/Ge -> Lt/Le with swapped operands;
+      a false Lt/Le -> the true Le/Lt with swapped operands;  PartialOrd/PartialEq method calls -> cmp / ::eq;
+      is_none -> is_some, is_err -> is_ok (value flipped)."""
+    while isinstance(d, tuple) and d and d[0] == "not":
+        d, val = d[1], not val
+    if isinstance(d, tuple) and d and d[0] == "call" and len(d) == 3:
+        c = d[1]
+        last = c.rsplit("::", 1)[-1]
+        if "PartialOrd>::" in c and last in _ORD and len(d[2]) == 2:
+            d = ("cmp", _ORD[last], _unref(d[2][0]), _unref(d[2][1]))
+        elif c.endswith("PartialEq>::ne") or c == "std::cmp::PartialEq::ne":
+            d, val = ("call", c[:-2] + "eq", d[2]), not val
+        else:
+            for neg, pos in _NEG_CALL.items():
+                if c.endswith(neg) and (c.startswith("std::option::Option") or c.startswith("std::result::Result")):
+                    d, val = ("call", c[:-len(neg)] + pos, d[2]), not val
+                    break
+    if isinstance(d, tuple) and d and d[0] == "cmp":
+        op, a, b = d[1], d[2], d[3]
+        if op == "Ne":
+            op, val = "Eq", not val
+        if op == "Gt":
+            op, a, b = "Lt", b, a
+        elif op == "Ge":
+            op, a, b = "Le", b, a
+        if op in ("Lt", "Le") and not val:
+            op, a, b, val = ("Le" if op == "Lt" else "Lt"), b, a, True
+        if op == "Eq" and repr(a) > repr(b):
+            a, b = b, a
+        d = ("cmp", op, a, b)
+    return d, val
+
+
+def is_eq_call(d, ty=None):
+    """d is a (canonical) `PartialEq::eq` test, optionally on type `ty` (impl method or the trait's default `ne`)."""
+    if not (isinstance(d, tuple) and d and d[0] == "call"):
+        return False
+    c = d[1]
+    if c == "std::cmp::PartialEq::eq":
+        return True
+    return c.endswith("PartialEq>::eq") and (ty is None or c.startswith("<%s as " % ty))
+
+
+def switch_test(body, du, bid):
+    """For a block ending in a boolean switch: (d, bb_holds, bb_fails) where d is the canonical description of the
+    tested condition and bb_holds the successor taken when d holds (so `if !(a < b)`, `if b <= a`, `let e = b <= a; if e`
+    all give the same triple)."""
+    t = body.blocks[bid]["term"]
+    if t["k"] != "switch" or t.get("dty") != "bool":
+        return None
+    d = describe_bool(body, du, t["discr"])
+    zero = [bb for v, bb in t["targets"] if int(v) == 0]
+    one = [bb for v, bb in t["targets"] if int(v) == 1]
+    f_bb = zero[0] if zero else t["otherwise"]
+    t_bb = one[0] if one else t["otherwise"]
+    d2, v = canon_bool(d, True)
+    return (d2, t_bb, f_bb) if v else (d2, f_bb, t_bb)
+
+
 class PathWalker:
     """Enumerate acyclic paths from a start block. At every switch a condition is recorded:
        ('variant', place, name) for discriminant switches, ('bool', descr, True/False) for boolean switches,
@@ -141,10 +213,9 @@ class PathWalker:
         if si["kind"] == "bool":
             vals = [v for v, bb in t["targets"] if bb == target]
             d = describe_bool(body, self.du, t["discr"])
-            if vals:
-                return ("bool", d, bool(int(vals[0])))
             # otherwise arm of a bool switch on 0 => value is true
-            return ("bool", d, True)
+            d, v = canon_bool(d, bool(int(vals[0])) if vals else True)
+            return ("bool", d, v)
         d = describe_val(body, self.du, t["discr"])
         vals = [v for v, bb in t["targets"] if bb == target]
         return ("int", d, vals[0] if vals else ("not", tuple(v for v, _ in t["targets"])))
@@ -170,6 +241,8 @@ class PathWalker:
                         envd[l] = int(rv["a"]["v"])
                     elif rv["k"] == "use" and rv["a"]["k"] in ("copy", "move") and not rv["a"]["p"]["proj"] and rv["a"]["p"]["l"] in envd:
                         envd[l] = envd[rv["a"]["p"]["l"]]
+                    elif rv["k"] == "unop" and rv["op"] == "Not" and rv["a"]["k"] in ("copy", "move") and not rv["a"]["p"]["proj"] and rv["a"]["p"]["l"] in envd and self.body.locals[l] == "bool":
+                        envd[l] = 1 - envd[rv["a"]["p"]["l"]]
                     else:
                         envd.pop(l, None)
             env = frozenset(envd.items())
